@@ -275,26 +275,24 @@ where
         mut n: u64,
     ) -> Result<(), CopyError<Self::Error, W::Error>> {
         let from_buffer = Ord::min(n, self.bits_in_buffer as _);
-        self.buffer = self.buffer.rotate_left(from_buffer as _);
-
-        #[allow(unused_mut)]
-        let mut self_buffer_u64: u64 = self.buffer.cast();
-
-        #[cfg(feature = "checks")]
-        {
-            // Clean up in case checks are enabled
-            if n < 64 {
-                self_buffer_u64 &= (1_u64 << n) - 1;
-            }
-        }
-
-        bit_write
-            .write_bits(self_buffer_u64, from_buffer as usize)
-            .map_err(CopyError::WriteError)?;
         n -= from_buffer;
 
+        // Move the buffered bits, at most 64 at a time (after a peek the buffer
+        // of a 64-bit reader can hold more than 64 bits), keeping the invariant
+        // that the bits of the buffer that are not valid are zero.
+        let mut left = from_buffer as usize;
+        while left > 0 {
+            let chunk = Ord::min(left, 64);
+            let bits: u64 = (self.buffer >> (BB::<WR>::BITS - chunk)).cast();
+            bit_write
+                .write_bits(bits, chunk)
+                .map_err(CopyError::WriteError)?;
+            self.buffer <<= chunk;
+            self.bits_in_buffer -= chunk;
+            left -= chunk;
+        }
+
         if n == 0 {
-            self.bits_in_buffer -= from_buffer as usize;
             return Ok(());
         }
 
@@ -322,8 +320,10 @@ where
         bit_write
             .write_bits((new_word >> self.bits_in_buffer).upcast(), n as usize)
             .map_err(CopyError::WriteError)?;
+        // Keep only the bits that have not been copied, in the upper part
         self.buffer = UpcastableInto::<BB<WR>>::upcast(new_word)
-            .rotate_right(WR::Word::BITS as u32 - n as u32);
+            << (BB::<WR>::BITS - self.bits_in_buffer - 1)
+            << 1;
 
         Ok(())
     }
@@ -517,27 +517,26 @@ where
         mut n: u64,
     ) -> Result<(), CopyError<Self::Error, W::Error>> {
         let from_buffer = Ord::min(n, self.bits_in_buffer as _);
-
-        #[allow(unused_mut)]
-        let mut self_buffer_u64: u64 = self.buffer.cast();
-
-        #[cfg(feature = "checks")]
-        {
-            // Clean up in case checks are enabled
-            if n < 64 {
-                self_buffer_u64 &= (1_u64 << n) - 1;
-            }
-        }
-
-        bit_write
-            .write_bits(self_buffer_u64, from_buffer as usize)
-            .map_err(CopyError::WriteError)?;
-
-        self.buffer >>= from_buffer;
         n -= from_buffer;
 
+        // Move the buffered bits, at most 64 at a time (after a peek the buffer
+        // of a 64-bit reader can hold more than 64 bits).
+        let mut left = from_buffer as usize;
+        while left > 0 {
+            let chunk = Ord::min(left, 64);
+            let mut bits: u64 = self.buffer.cast();
+            if chunk < 64 {
+                bits &= (1_u64 << chunk) - 1;
+            }
+            bit_write
+                .write_bits(bits, chunk)
+                .map_err(CopyError::WriteError)?;
+            self.buffer >>= chunk;
+            self.bits_in_buffer -= chunk;
+            left -= chunk;
+        }
+
         if n == 0 {
-            self.bits_in_buffer -= from_buffer as usize;
             return Ok(());
         }
 
